@@ -99,7 +99,9 @@ def classes_for(focus):
     c02 = ["valid", "valid_multi", "reward_plus1", "reward_exact_fees", "reward_minus1", "reward_prev_era", "fees_wrong_state",
            "reward_split_exact", "reward_split_plus1", "reward_split_big",
            "zero_output", "max_output", "over_max_output", "u64_output", "total_over_max", "overspend_by_1",
-           "reward_no_fee_tx", "known_header_swapped_body"]
+           "reward_no_fee_tx", "known_header_swapped_body",
+           # one output paid out twice within a block creates value just as an inflated reward does
+           "dup_ref_across_txs", "dup_ref_in_tx", "intra_block_spend", "dup_tx"]
     c05 = ["valid", "valid_multi", "pow_fails", "target_plus1", "target_minus1", "stale_target", "height_plus1",
            "height_minus1", "cb_height_wrong", "txs_reordered", "ts_equal_parent", "ts_before_parent", "ts_future_31", "ts_future_30",
            "ev_summary_hash", "ev_chain_sample", "ev_block_hash", "ev_other_fork", "ev_forged_consistent", "merkle_wrong",
